@@ -33,7 +33,10 @@ TReset(e) ==
   /\ cur' = {} /\ blk' = [h \in 1..e.nh |-> None]
   /\ last' = [a |-> [op |-> "init"], r |-> 0]
 
+(* inputs the harness passed by reference (the byte string given to Unmarshal) are compared  *)
+(* with a private copy after the call: a.inmut = the callee left them alone                  *)
 TCall(e) ==
+  /\ ("inmut" \in DOMAIN e.a) => e.a.inmut
   /\ ReplyOK(e.a, e.r)
   /\ Step(e.a, e.r)
   /\ ObsOK(e.obs, cur, cur', blk, blk')
